@@ -49,6 +49,7 @@ def run_config(cfg, strategy=None, want_choices=False):
     log = []
 
     def ev(**k):
+        k['vt'] = int(round((s.now - 1000000.0) * 10))     # tenths of a (virtual) second
         log.append(k)
 
     wrong = {tuple(e) for e in cfg.get('wrong', [])}
